@@ -446,9 +446,12 @@ pub fn finish(info: RunInfo, agg: Agg, capped: bool) -> i32 {
     let mut new_violations = 0;
     let mut known_hit: Vec<Value> = vec![];
     let mut viol_json: Vec<Value> = vec![];
+    let mut known_lines: BTreeMap<String, (u64, Vec<String>)> = BTreeMap::new();
     for (sig, f) in &agg.findings {
         if let Some(what) = known.matches(info.prop, sig) {
-            println!("KNOWN-FINDING: property={} {} [{}; {} cases]", info.prop, what, sig, f.count);
+            let e = known_lines.entry(what.to_string()).or_insert((0, vec![]));
+            e.0 += f.count;
+            e.1.push(sig.clone());
             known_hit.push(json!({"signature": sig, "cases": f.count}));
             continue;
         }
@@ -476,6 +479,9 @@ pub fn finish(info: RunInfo, agg: Agg, capped: bool) -> i32 {
         println!("  signature: {}", sig);
         println!("  detail: {}", f.detail.lines().next().unwrap_or(""));
         viol_json.push(json!({"signature": sig, "cases": f.count, "replay": path.display().to_string()}));
+    }
+    for (what, (count, sigs)) in &known_lines {
+        println!("KNOWN-FINDING: property={} {} [{} cases; signatures: {}]", info.prop, what, count, sigs.join(", "));
     }
     if new_violations > 6 {
         println!("  ... and {} more violation signatures (listed in the evidence file)", new_violations - 6);
@@ -539,6 +545,11 @@ pub fn finish(info: RunInfo, agg: Agg, capped: bool) -> i32 {
         wall,
         if capped { " (CAPPED: not exhaustive)" } else { "" }
     );
+    if new_violations > 0 {
+        // a verdict on the tree takes precedence: the oracle self-test needs a
+        // clean base observation and cannot be evaluated on a violating tree
+        return 1;
+    }
     if !selftest_ok {
         eprintln!(
             "vcheck: oracle self-test failed: injected {} detected {}",
